@@ -113,7 +113,7 @@ def map_mstep(st, prior, cur, sw, relevance, alpha_fixed, floor_n, var_floor, un
     if relevance is not None:
         a = n / (n + relevance)
     else:
-        a = np.full(len(n), float(alpha_fixed))
+        a = np.broadcast_to(np.asarray(alpha_fixed, float), (len(n),)).copy()  # scalar ratio or one ratio per component
     evid = n >= floor_n
     if uw:
         w = a * (n / st["t"]) + (1 - a) * pw
